@@ -4,7 +4,7 @@ go 1.25.0
 
 require github.com/open2b/scriggo v0.0.0
 
-require gopkg.in/yaml.v3 v3.0.1 // indirect
+require gopkg.in/yaml.v3 v3.0.1
 
 replace github.com/open2b/scriggo => /repo
 
